@@ -58,6 +58,52 @@ def strip_src(dump_json):
         return dump_json
 
 
+def seed_hex(rnd):
+    return "%032x" % rnd.getrandbits(128)
+
+
+def run_batch(cmd, objs, tier, what):
+    """run one harness command over JSON objects (each carries its own seed, so every line is reproducible alone).
+    A batch that does not finish in time is re-run in chunks and then line by line: rows of non-terminating cases are
+    {"hang": True}."""
+    lines = [json.dumps(o) for o in objs]
+    budget = 240 if tier == "quick" else 2400
+    try:
+        rows, _ = common.run_harness(cmd, stdin="\n".join(lines) + "\n", timeout=budget)
+        if len(rows) == len(lines):
+            return rows
+        raise Broken("harness %s returned %d rows for %d inputs (crash?)" % (what, len(rows), len(lines)))
+    except subprocess.TimeoutExpired:
+        common.log(f"[c17] {what}: batch did not finish in {budget}s; isolating the non-terminating case(s)")
+    rows = []
+    chunk = 50
+    for k in range(0, len(lines), chunk):
+        part = lines[k:k + chunk]
+        try:
+            r, _ = common.run_harness(cmd, stdin="\n".join(part) + "\n", timeout=90)
+            if len(r) != len(part):
+                raise Broken("harness %s returned %d rows for %d inputs (crash?)" % (what, len(r), len(part)))
+            rows += r
+            continue
+        except subprocess.TimeoutExpired:
+            pass
+        for l in part:
+            try:
+                r, _ = common.run_harness(cmd, stdin=l + "\n", timeout=20)
+                rows += r if len(r) == 1 else [{"hang": True}]
+            except subprocess.TimeoutExpired:
+                rows.append({"hang": True})
+    return rows
+
+
+def plain_hangs(src, pre, seedhex):
+    try:
+        common.run_harness(["c17-plain"], stdin=json.dumps({"b64": b64(src), "pre": b64(pre), "seed": seedhex}) + "\n", timeout=20)
+        return False
+    except subprocess.TimeoutExpired:
+        return True
+
+
 # ------------------------------------------------------------------ custom tokens (mirrors of the harness matchers)
 class Tok:
     def __init__(self, kind, digits):
@@ -285,7 +331,11 @@ class S:
         n = 1 + r.randrange(3)
         for i in range(n):
             s, c = self.stmt(2, [])
-            segs += s + ([r.choice(["; ", ";", "\n", " ;\n"])] if i < n - 1 else [])
+            if i > 0:
+                # a bare newline does not end an expression that can continue with a sign: `a\n-b` is a subtraction
+                first = s[0] if isinstance(s[0], str) else ""
+                segs += [r.choice(["; ", ";", " ;\n"] + ([] if first[:1] in ("-", "+") else ["\n"]))]
+            segs += s
             calls += c
         return segs, calls
 
@@ -353,7 +403,7 @@ class InjG(gen.G):
 
 
 # ------------------------------------------------------------------ (A)
-def run_A(res, rnd, seed, n, known):
+def run_A(res, rnd, seed, n, known, tier):
     corpus = pegcases.scrape_test_sources()
     inputs = []
     for i in range(n):
@@ -372,16 +422,22 @@ def run_A(res, rnd, seed, n, known):
                             "(1+2)*3", "3d6k2 + (2d4)d3", "this.x = 4; this.x", "store('q', 5); load('q')", "b + p2 + 3a8 + 2c8 + f"]).encode()
             kind = "load-store"
         mask = 0 if rnd.random() < 0.7 else rnd.randrange(1, 2048)
-        inputs.append({"b": b, "pre": rnd.choice(HISTORIES), "mask": mask, "kind": kind})
-    lines = [json.dumps({"b64": b64(i["b"]), "pre": b64(i["pre"]), "mask": i["mask"]}) for i in inputs]
-    rows, _ = common.run_harness(["c17", "-seed", seed], stdin="\n".join(lines) + "\n", timeout=1200)
-    if len(rows) != len(inputs):
-        raise Broken("harness c17 returned %d rows for %d inputs (crash?)" % (len(rows), len(inputs)))
+        inputs.append({"b": b, "pre": rnd.choice(HISTORIES), "mask": mask, "kind": kind, "seed": seed_hex(rnd)})
+    rows = run_batch(["c17"], [{"b64": b64(i["b"]), "pre": b64(i["pre"]), "mask": i["mask"], "seed": i["seed"]} for i in inputs], tier, "c17")
     tot = {}
     skipped = 0
     found = 0
+    hangs = 0
     for i, r in zip(inputs, rows):
+        if r.get("hang"):
+            hangs += 1
+            if not plain_hangs(i["b"], i["pre"], i["seed"]):
+                res.violation({"what": "evaluation does not terminate (20 s) with inert extensions installed, but terminates on the plain VM",
+                               "input": text(i["b"]), "input_hex": i["b"].hex(), "history": i["pre"], "seed": i["seed"], "mask": i["mask"]})
+                found += 1
+            continue
         res.count(i["b"].hex() + "|" + i["pre"] + "|" + str(i["mask"]), nontrivial=r["a"]["ok"])
+        r["seed"] = i["seed"]
         for k, v in r["cnt"].items():
             tot[k] = tot.get(k, 0) + v
         if r["cnt"]["handler"] or r["cnt"]["regerrors"]:
@@ -416,10 +472,11 @@ def run_A(res, rnd, seed, n, known):
         if found >= 4:
             break
     dist = {"programs": len(inputs), "by_kind": {k: sum(1 for i in inputs if i["kind"] == k) for k in ("program", "mixed", "repo-test", "load-store")},
-            "succeeded": sum(1 for r in rows if r["a"]["ok"]), "with_all_extensions": sum(1 for i in inputs if i["mask"] == 0),
+            "succeeded": sum(1 for r in rows if not r.get("hang") and r["a"]["ok"]), "with_all_extensions": sum(1 for i in inputs if i["mask"] == 0),
             "with_random_subset": sum(1 for i in inputs if i["mask"]), "with_history": sum(1 for i in inputs if i["pre"]),
-            "skipped_map_order_nondeterminism": skipped, "hook_and_parser_invocations": tot}
-    res.sample({"src": text(inputs[0]["b"]), "plain": {k: rows[0]["a"][k] for k in ("ok", "str", "detail", "err")}, "counts": rows[0]["cnt"]})
+            "skipped_map_order_nondeterminism": skipped, "not_terminating_within_20s": hangs, "hook_and_parser_invocations": tot}
+    ex = next(k for k, r in enumerate(rows) if not r.get("hang"))
+    res.sample({"src": text(inputs[ex]["b"]), "plain": {k: rows[ex]["a"][k] for k in ("ok", "str", "detail", "err")}, "counts": rows[ex]["cnt"]})
     return dist, found, skipped, [i["b"] for i in inputs]
 
 
@@ -452,6 +509,7 @@ def make_B(rnd, n, plain_sources):
             cases.append({"kind": "nomatch", "segs": None, "src": b, "ref": b, "calls": [], "matched": None, "la": False, "same_text": True})
     for c in cases:
         c["pre"] = rnd.choice(HISTORIES[:3]) if c["kind"] != "lookalike" else ""
+        c["seed"] = seed_hex(rnd)
     return cases
 
 
@@ -537,16 +595,22 @@ def judge_B(c, r):
     return out
 
 
-def run_B(res, rnd, seed, n, plain_sources, known):
+def run_B(res, rnd, seed, n, plain_sources, known, tier):
     cases = make_B(rnd, n, plain_sources)
-    lines = [json.dumps({"b64": b64(c["src"]), "ref": b64(c["ref"]), "pre": b64(c["pre"])}) for c in cases]
-    rows, _ = common.run_harness(["c17-match", "-seed", seed + 17], stdin="\n".join(lines) + "\n", timeout=1200)
-    if len(rows) != len(cases):
-        raise Broken("harness c17-match returned %d rows for %d inputs (crash?)" % (len(rows), len(cases)))
+    rows = run_batch(["c17-match"], [{"b64": b64(c["src"]), "ref": b64(c["ref"]), "pre": b64(c["pre"]), "seed": c["seed"]} for c in cases], tier, "c17-match")
     found = 0
     la_hits, la_examples, order_skips = 0, [], 0
     ncalls = 0
+    hangs = 0
     for c, r in zip(cases, rows):
+        if r.get("hang"):
+            hangs += 1
+            if not plain_hangs(c["ref"] or c["src"], c["pre"], c["seed"]):
+                res.violation({"what": "evaluation does not terminate (20 s) with custom dice registered, but the reference program terminates on the plain VM",
+                               "input": text(enc(c["src"])), "input_hex": enc(c["src"]).hex(), "literal_reference": text(enc(c["ref"])), "history": c["pre"], "seed": c["seed"]})
+                found += 1
+            r.update({"calls": [], "clean": {"ok": False}})
+            continue
         ncalls += len(r["calls"] or [])
         res.count("B|" + enc(c["src"]).hex() + "|" + c["pre"], nontrivial=bool(r["calls"]))
         probs = judge_B(c, r)
@@ -581,7 +645,7 @@ def run_B(res, rnd, seed, n, plain_sources, known):
     dist = {"programs": len(cases), "by_kind": kinds, "with_matching_tokens": sum(1 for r in rows if r["calls"]), "handler_invocations": ncalls,
             "with_expected_invocation_count": sum(1 for c in cases if c["calls"] is not None),
             "tokens_in_predicate_guarded_context": sum(1 for c in cases if c["la"]),
-            "attributed_to_lookahead_finding": la_hits, "skipped_map_order_nondeterminism": order_skips,
+            "attributed_to_lookahead_finding": la_hits, "skipped_map_order_nondeterminism": order_skips, "not_terminating_within_20s": hangs,
             "succeeded": sum(1 for r in rows if r["clean"]["ok"])}
     ex = next((i for i, (c, r) in enumerate(zip(cases, rows)) if c["kind"] == "structured" and len(r["calls"] or []) > 2 and r["clean"]["ok"]), 0)
     res.sample({"src": text(enc(cases[ex]["src"])), "literal_reference": text(enc(cases[ex]["ref"])), "value": rows[ex]["clean"]["str"],
@@ -643,19 +707,23 @@ def run_C(res, rnd, cases_B, plain_sources, n, opnum):
         broken = Broken("correspondence Corr17.c17_ok (Model/Peg.v with custom match table vs Go Parse with the matchers registered)",
                         {"first": [{"input": text(inputs[i][0]), "hex": inputs[i][0].hex(), "flags": inputs[i][1], "table": tables[i],
                                     "go": {k: rows[i][k] for k in ("ok", "offset", "cnt", "fail", "ops")}} for i in bad[:3]]})
-    for r, (b, fl) in zip(rows, inputs):
-        if r.get("panic"):
+    for r, (b, fl) in list(zip(rows, inputs)):
+        if r.get("panic") and len(res.violations) < 3:
             res.violation({"what": "Parse panics with custom dice registered", "input": text(b), "input_hex": b.hex(), "flags": fl, "panic": r["panic"]})
     return info, broken
 
 
 def build_own_coq():
-    """compile this property's own Coq files when they are missing / out of date (they may not be listed in _CoqProject yet)"""
+    """compile this property's own Coq files when they are missing / out of date with respect to their sources or the
+    libraries they import (they may not be listed in _CoqProject yet; once they are, `make` keeps them fresh)"""
+    deps = {"Model/Custom.v": [], "Proofs/CustomProofs.v": ["Model/Custom.vo"],
+            "Corr/Corr17.v": ["Model/Peg.vo", "Gen/Grammar.vo", "Corr/CorrK1.vo"]}
     with common.Lock("coqmake"):
         for f in MY_COQ:
             v = os.path.join(common.COQ, f)
             vo = v + "o"
-            if not os.path.exists(vo) or os.path.getmtime(vo) < os.path.getmtime(v):
+            srcs = [v] + [os.path.join(common.COQ, d) for d in deps[f]]
+            if not os.path.exists(vo) or any(os.path.exists(x) and os.path.getmtime(vo) < os.path.getmtime(x) for x in srcs):
                 r = common.sh(["timeout", "900", "coqc", "-q", "-Q", ".", "DS", f], cwd=common.COQ)
                 if r.returncode != 0:
                     raise Broken("coq-build " + f, r.stdout[-3000:])
@@ -670,8 +738,8 @@ def run(res, tier, seed):
     nB = 450 if tier == "quick" else 4000
     nC = 350 if tier == "quick" else 2500
 
-    distA, foundA, skipped, plain_sources = run_A(res, rnd, seed, nA, known)
-    distB, foundB, la_hits, la_examples, cases_B = run_B(res, rnd, seed, nB, plain_sources, known)
+    distA, foundA, skipped, plain_sources = run_A(res, rnd, seed, nA, known, tier)
+    distB, foundB, la_hits, la_examples, cases_B = run_B(res, rnd, seed, nB, plain_sources, known, tier)
     res.cov["rule"] = (
         "(A) generated programs, mixed/mutated inputs, repository test sources and load/store-heavy snippets, each from a random 16-byte seed with and "
         "without history, on a plain VM (twice) and on a VM with never-matching custom dice (regex + stream parsers that read ahead with Peek/Read/Unread/"
@@ -715,8 +783,8 @@ def run(res, tier, seed):
         res.cov["input_distribution"]["C_k1_custom"] = {k: infoC[k] for k in ("cases", "with_table_entries", "accepted", "emitting_dice_custom")}
     except Broken as b:
         broken = b
-    if broken and not found and not res.violations:
-        res.violation({"broken": broken.what, "detail": broken.detail}, no_input=True)
+    if broken:
+        res.violation({"broken": broken.what, "detail": broken.detail}, no_input=not found)
 
 
 def pegcases_opnum():
